@@ -11,12 +11,13 @@ import CallbagModel.Ops.FromIter
 import CallbagModel.Ops.ForEach
 import CallbagModel.Ops.Compose
 import CallbagModel.Ops.PlugOp
+import CallbagModel.Ops.Plug
 /-!
 # Operator instances known to the driver and to the Rust harness (same names, same closures on both sides)
 
 `map:add:K` `map:mul:K` · `filter:mod:M:R` · `scan:lin:B:SEED` (`acc ↦ (acc*B + x) mod 1000003`) · `skip:N` · `take:N` ·
 `merge:N` (`merge0:N` = the code before FX2/FX3) · `concat:N` · `combine:N` · `flatten` · `share:K` (K sinks) ·
-`fromiter:LEN` (items 101, 102, …; `fromiter:inf` unbounded) · `foreach`
+`fromiter:LEN` (items 101, 102, …; `fromiter:inf` unbounded) · `foreach` · `in:<j>/<LEN>/<n-ary>` (real from_iter as a member)
 -/
 namespace Cb
 
@@ -114,8 +115,27 @@ def atOf (name : String) : Option Inst :=
     | _, _, _ => none
   | _ => none
 
+/-- `in:<j>/<LEN>/<n-ary>`: the REAL `from_iter` (LEN items 101, 102, …) as member `j` of `merge,N` / `concat,N` / `combine,N`, the other
+members puppets (`Ops/Plug.lean`): what the n-ary operator sends to a member that has ended (known findings KF2, KF2m) meets the real
+source's own end-of-life handling -/
+def inOf (name : String) : Option Inst :=
+  match (name.drop 3).toString.splitOn "/" with
+  | [js, ls, nary] =>
+    match js.toNat?, ls.toNat?, nary.splitOn "," with
+    | some j, some len, ["merge", n] => n.toNat?.map fun n =>
+        mkInt (plug j (FromIter.machine Int (iterNext (some len)) 0) (Merge.machine Int n true))
+    | some j, some len, ["concat", n] => n.toNat?.map fun n =>
+        mkInt (plug j (FromIter.machine Int (iterNext (some len)) 0) (Concat.machine Int n))
+    | some j, some len, ["combine", n] => n.toNat?.map fun n =>
+        { St := FromIter.St Nat Int × Combine.St Int, Loc := List (CFr FromIter.Loc (Combine.Loc Int)), β := List Int,
+          M := plug j (FromIter.machine Int (iterNext (some len)) 0) (Combine.machine Int n), fb := fmtList, pb := parseIntList,
+          locName := fun l => locTag (reprStr l) }
+    | _, _, _ => none
+  | _ => none
+
 def instOf (name : String) : Option Inst :=
   if name.startsWith "at:" then atOf name else
+  if name.startsWith "in:" then inOf name else
   if name.startsWith "chain:" then
     (chainOf ((name.drop 6).toString.splitOn "/")).map fun c => @mkInt c.St c.Loc c.reprLoc c.M 1 none (fun _ => true)
   else
